@@ -85,9 +85,17 @@ def classify(f, vals, ctx, route, kind, ref, got):
     gs, gt, _ = split_outcome(got)
     inline = route in M.INLINE_ROUTES
     # (set x (f .. x)): the destination register is written before a later operand (x itself) is read
-    if inline and ctx in M.HINT_CONTEXTS and (f in M.VAROPS or f in M.COMPOPS or f == "put"):
-        first = 1 if f == "put" else 2
-        if "x" in vals[first:]:
+    # (opreduce: operand i >= 2 is read after the first store; compreduce: operand i >= 1 of a chain of
+    #  >= 3 is read again after the first comparison was stored; put: the key/value after the copy of ds)
+    if inline and ctx in M.HINT_CONTEXTS:
+        first = None
+        if f in M.VAROPS and len(vals) >= 3:
+            first = 2
+        elif f in M.COMPOPS and len(vals) >= 3:
+            first = 1
+        elif f == "put" and len(vals) == 3:
+            first = 1
+        if first is not None and "x" in vals[first:]:
             return "set-alias-operand"
     # inline unary minus is compiled as x * -1, the function computes 0 - x
     if inline and f == "-" and len(vals) == 1:
@@ -202,6 +210,8 @@ def run_section(chk, sname, f, cases, samples):
     items = []
     metas = []      # per item: (vals, argsform, [(pattern, ctx, route, text)])
     for (ff, vals, specs) in cases:
+        if M.pointer_order(ff, vals):
+            continue
         argsform = M.args_text(ff, vals)
         progs = []
         for (pat, ctx, route) in specs:
